@@ -13,6 +13,7 @@ import (
 	"crypto/rand"
 	"errors"
 	"fmt"
+	"log/slog"
 	"net/netip"
 	"strings"
 	"testing"
@@ -21,6 +22,7 @@ import (
 	"time"
 
 	"github.com/flynn/noise"
+	"github.com/slackhq/nebula"
 	"github.com/slackhq/nebula/cert"
 	ct "github.com/slackhq/nebula/cert_test"
 	"github.com/slackhq/nebula/handshake"
@@ -557,6 +559,35 @@ func (e *exec) run(a []string) string {
 		out := e.forge(a)
 		e.regs[a[1]] = out
 		return fmt.Sprintf("ok len=%d", len(out))
+	case "seed":
+		mm := e.ms[a[1]]
+		if mm == nil {
+			return "bad-op"
+		}
+		if mm.result == nil {
+			return "none"
+		}
+		r := *mm.result // newConnectionStateFromResult only reads the Result
+		if a[2] != "-" {
+			r.MessageIndex = hlib.Atou(a[2])
+		}
+		cs, err := nebula.VerifNewConnectionStateFromResult(&r)
+		if err != nil {
+			return "err"
+		}
+		w := nebula.VerifDecryptWindow(cs)
+		l := slog.New(slog.DiscardHandler)
+		mi := r.MessageIndex
+		probes := []uint64{0, 1, 2}
+		if mi >= 1 {
+			probes = append(probes, mi-1)
+		}
+		probes = append(probes, mi, mi+1, mi+2, mi+8191, mi+8192, mi+8193)
+		var sb strings.Builder
+		for _, p := range probes {
+			sb.WriteString(hlib.B(w.Check(l, p)))
+		}
+		return fmt.Sprintf("ok mc=%d chk=%s", nebula.VerifCounterLoad(cs), sb.String())
 	case "pair":
 		i, r := e.ms[a[1]], e.ms[a[2]]
 		if i == nil || r == nil || i.result == nil || r.result == nil {
@@ -816,6 +847,11 @@ func genCase(r *hlib.Rand, e *exec, do func(string, ...any) string, tier, profil
 		do("pp I m2 x4") // duplicate of the genuine message 2
 	}
 	do("pair I R")
+	if r.Chance(1, 3) {
+		// replay-window seeding of newConnectionStateFromResult, on the real Results
+		do("seed %s -", hlib.Pick(r, "I", "R"))
+		do("seed %s %d", hlib.Pick(r, "I", "R"), hlib.Pick(r, 0, 1, 2, 3, 63, 64, 65, 127, 128, 4095, 4096, 8190, 8191, 8192, 8193, 100000, r.Intn(8192)))
+	}
 	if r.Chance(1, 6) {
 		// a second, independent session between the same identities: results must not pair across sessions
 		if do("new I2 %s %d 1 %s %d 0", idI, ver(idI), idx(), r.Intn(1<<30)) == "ok" && strings.HasPrefix(do("init I2 n1"), "ok") {
